@@ -282,6 +282,13 @@ class UGenList2(List[T]):
         return f'UGenList2({list.__repr__(self)})'
 
 
+class UIntList(List[int]):
+    """Non-parameterised user class over a parameterised container: its items must be ints."""
+
+    def __repr__(self):
+        return f'UIntList({list.__repr__(self)})'
+
+
 class UGenDict(Dict[KT, VT]):
     """User generic subclassing dict with two type parameters."""
 
